@@ -594,3 +594,28 @@ pub fn set_default_role(r: u8) {
 pub fn op_done() {
     OPS_DONE.fetch_add(1, SeqCst);
 }
+
+/// Make the next `n` accept()/accept4() calls of this process fail with `errno` (the pending
+/// connection stays in the backlog).  Self-contained in the shim, needs no `register`.
+pub fn accept_arm(n: u32, errno: i32) {
+    unsafe {
+        let name = CString::new("vshim_accept_arm").unwrap();
+        let sym = libc::dlsym(libc::RTLD_DEFAULT, name.as_ptr());
+        assert!(!sym.is_null(), "shim not loaded");
+        let f: extern "C" fn(i32, i32) = std::mem::transmute(sym);
+        f(n as i32, errno);
+    }
+}
+
+/// Disarm; returns how many accepts failed since the last `accept_arm`.
+pub fn accept_disarm() -> u32 {
+    unsafe {
+        let name = CString::new("vshim_accept_disarm").unwrap();
+        let sym = libc::dlsym(libc::RTLD_DEFAULT, name.as_ptr());
+        if sym.is_null() {
+            return 0;
+        }
+        let f: extern "C" fn() -> i32 = std::mem::transmute(sym);
+        f().max(0) as u32
+    }
+}
